@@ -42,11 +42,15 @@ func InterpolateInExponent[G algebra.PrimeGroupElement[G, F], F algebra.PrimeFie
 	for c := range xs {
 		num := group.OpIdentity()
 		for r, y := range ys {
-			m, err := denMatrixSquare.Minor(r, c)
-			if err != nil {
-				return nil, errs.Wrap(err).WithMessage("could not compute minor")
+			// the only cofactor of a 1×1 matrix is 1 (it has no minor matrix)
+			d := den.Mul(denInv)
+			if len(xs) > 1 {
+				m, err := denMatrixSquare.Minor(r, c)
+				if err != nil {
+					return nil, errs.Wrap(err).WithMessage("could not compute minor")
+				}
+				d = m.Determinant()
 			}
-			d := m.Determinant()
 			if (r+c)%2 != 0 {
 				d = d.Neg()
 			}
